@@ -698,7 +698,7 @@ def run_check(prop, tier, seed, budget_scale=1.0):
                         confirm = "not_reproduced_on_shipped"
             except Exception as e:
                 confirm = "shipped_build_failed(%s)" % str(e)[:80]
-        mplan["expect"] = {"cls": cls, "sig": sig, "variant": key[0], "config": key[1], "confirm": confirm, "detail": info["detail"]}
+        mplan["expect"] = {"cls": cls, "sig": sig, "variant": key[0], "config": key[1], "confirm": confirm, "detail": info["detail"], "property": prop}
         h = hashlib.sha1((cls + sig).encode()).hexdigest()[:8]
         path = os.path.join(REPLAYS, "%s-%s-%s.json" % (prop, seed, h))
         with open(path, "w") as f:
@@ -775,7 +775,7 @@ def run_replay(path):
     vs = [(v["cls"], sym.sig(v["sig"]), v.get("detail", "")) for v in r.get("violations", [])]
     for v in vs:
         print("replayed violation: %s | %s | %s" % v)
-    prop = j.get("property", "?")
+    prop = exp.get("property") or j.get("property", "?")
     if exp and any(v[0] == exp.get("cls") and v[1] == exp.get("sig") for v in vs):
         print("VIOLATION property=%s replay=%s" % (prop, path))
         return 1
